@@ -156,7 +156,7 @@ pub struct World {
     pub path_trace: bool,
     seq_parent: u16,
     seq_other: u16,
-    next_parent: Instant,
+    pub next_parent: Instant,
     /// TLV lists waiting to ride on the parent's next Announces (one entry per Announce)
     pub parent_plan: VecDeque<(Vec<RTlv>, u64)>,
     pub sent: Vec<SentTlv>,
@@ -164,18 +164,33 @@ pub struct World {
     pub seen_b: Vec<SeenAnnounce>,
     pub seen_a_master_traffic: u64,
     pub own_identity: [u8; 8],
+    /// what the parent announces (contents and flag octet 1)
+    pub parent_ann: RAnnounce,
+    pub parent_flags1: u8,
+    /// Delay_Resp frames the daemon's port 2 emitted (sequence ids), and everything else it sent there, by type
+    pub seen_b_delay_resp: Vec<u16>,
+    pub seen_b_by_type: [u64; 16],
+    /// Delay_Req frames the daemon's port 1 (slave) emitted
+    pub seen_a_delay_req: Vec<u16>,
+    /// arrival times of frames the daemon sent: (port 'a'/'b', message type, when)
+    pub log: Vec<(char, u8, Instant)>,
 }
 
 impl World {
-    pub fn start(path_trace: bool) -> Result<World, String> {
+    /// network devices of the worker's private namespace (once per worker)
+    pub fn setup_links() -> Result<(), String> {
         sh("ip link set lo up")?;
         sh("ip link add a0 type veth peer name a1 && ip link add b0 type veth peer name b1")?;
         sh("ip link set a0 address 00:1b:19:aa:00:01 && ip link set b0 address 00:1b:19:aa:00:02")?;
-        sh("for i in a0 a1 b0 b1; do ip link set $i up; done")?;
-        let dir = std::env::temp_dir().join(format!("vcheck-e2e-{}", std::process::id()));
+        sh("for i in a0 a1 b0 b1; do ip link set $i up; done")
+    }
+
+    pub fn start(path_trace: bool) -> Result<World, String> {
+        static GEN: std::sync::atomic::AtomicU64 = std::sync::atomic::AtomicU64::new(0);
+        let dir = std::env::temp_dir().join(format!("vcheck-e2e-{}-{}", std::process::id(), GEN.fetch_add(1, std::sync::atomic::Ordering::Relaxed)));
         std::fs::create_dir_all(&dir).map_err(|e| e.to_string())?;
         let cfg = format!(
-            "loglevel = \"{ll}\"\nsdo-id = 0\ndomain = 0\npriority1 = 128\nidentity = \"001b19aa00010000\"\nvirtual-system-clock = true\npath-trace = {}\n\n[[port]]\ninterface = \"a0\"\nnetwork-mode = \"ethernet\"\nhardware-clock = \"none\"\nannounce-interval = {l}\nsync-interval = {l}\ndelay-interval = 0\n\n[[port]]\ninterface = \"b0\"\nnetwork-mode = \"ethernet\"\nhardware-clock = \"none\"\nannounce-interval = {l}\nsync-interval = 0\ndelay-interval = 0\n\n[observability]\nobservation-path = \"{}\"\n",
+            "loglevel = \"{ll}\"\nsdo-id = 0\ndomain = 0\npriority1 = 128\nidentity = \"001b19aa00010000\"\nvirtual-system-clock = true\npath-trace = {}\n\n[[port]]\ninterface = \"a0\"\nnetwork-mode = \"ethernet\"\nhardware-clock = \"none\"\nannounce-interval = {l}\nsync-interval = {l}\ndelay-interval = -2\n\n[[port]]\ninterface = \"b0\"\nnetwork-mode = \"ethernet\"\nhardware-clock = \"none\"\nannounce-interval = {l}\nsync-interval = {l}\ndelay-interval = -2\n\n[observability]\nobservation-path = \"{}\"\n",
             path_trace,
             dir.join("obs.sock").display(),
             l = ANN_LOG,
@@ -200,6 +215,12 @@ impl World {
             seen_b: vec![],
             seen_a_master_traffic: 0,
             own_identity: [0x00, 0x1b, 0x19, 0xaa, 0x00, 0x01, 0x00, 0x00],
+            parent_ann: default_parent_ann(),
+            parent_flags1: 0,
+            seen_b_delay_resp: vec![],
+            seen_b_by_type: [0; 16],
+            seen_a_delay_req: vec![],
+            log: vec![],
         };
         w.establish()?;
         Ok(w)
@@ -209,12 +230,11 @@ impl World {
         matches!(self.daemon.try_wait(), Ok(None))
     }
 
-    fn parent_announce(&mut self, tlvs: Vec<RTlv>) {
+    pub fn parent_announce(&mut self, tlvs: Vec<RTlv>) {
         self.seq_parent = self.seq_parent.wrapping_add(1);
-        let mut ann = simple_announce(PARENT.clock, 100, 6, 0);
-        ann.gm_identity = PARENT.clock;
-        let mut m = announce_from(PARENT, self.seq_parent, ann, 0, 0);
+        let mut m = announce_from(PARENT, self.seq_parent, self.parent_ann, 0, 0);
         m.header.log_interval = ANN_LOG;
+        m.header.flags[1] = self.parent_flags1;
         m.tlvs = tlvs.clone();
         let now = Instant::now();
         if self.a1.send(&m.encode()) {
@@ -243,6 +263,13 @@ impl World {
     fn drain(&mut self) {
         while let Some(f) = self.b1.recv() {
             if let Ok(m) = decode(&f) {
+                if m.header.source.clock == self.own_identity {
+                    self.log.push(('b', m.header.msg_type, Instant::now()));
+                    self.seen_b_by_type[(m.header.msg_type & 0xf) as usize] += 1;
+                    if m.header.msg_type == T_DELAY_RESP {
+                        self.seen_b_delay_resp.push(m.header.seq);
+                    }
+                }
                 if m.header.msg_type == T_ANNOUNCE {
                     self.seen_b.push(SeenAnnounce { at: Instant::now(), msg: m });
                 }
@@ -250,8 +277,14 @@ impl World {
         }
         while let Some(f) = self.a1.recv() {
             if let Ok(m) = decode(&f) {
+                if m.header.source.clock == self.own_identity {
+                    self.log.push(('a', m.header.msg_type, Instant::now()));
+                }
                 if matches!(m.header.msg_type, T_ANNOUNCE | T_SYNC | T_FOLLOW_UP) && m.header.source.clock == self.own_identity {
                     self.seen_a_master_traffic += 1;
+                }
+                if m.header.msg_type == T_DELAY_REQ && m.header.source.clock == self.own_identity {
+                    self.seen_a_delay_req.push(m.header.seq);
                 }
             }
         }
@@ -285,6 +318,13 @@ impl World {
         }
         let d = Instant::now() + extra;
         self.run_until(d);
+    }
+
+    pub fn send_a(&self, m: &RMsg) -> bool {
+        self.a1.send(&m.encode())
+    }
+    pub fn send_b(&self, m: &RMsg) -> bool {
+        self.b1.send(&m.encode())
     }
 
     pub fn observe(&self) -> Option<statime_linux::metrics::exporter::ObservableState> {
@@ -338,6 +378,12 @@ impl Drop for World {
             let _ = std::fs::remove_dir_all(&self.dir);
         }
     }
+}
+
+pub fn default_parent_ann() -> RAnnounce {
+    let mut ann = simple_announce(PARENT.clock, 100, 6, 0);
+    ann.gm_identity = PARENT.clock;
+    ann
 }
 
 // ---------------------------------------------------------------- C15 case (forwarding through the real daemon)
@@ -491,6 +537,419 @@ pub fn case_c15(w: &mut World, t: &mut Tape, tag: u32) -> E2eOut {
     E2eOut { out, inconclusive: None }
 }
 
+// ---------------------------------------------------------------- C19 case (observation of the real daemon, and the real exporter behind it)
+
+pub struct RealExporter {
+    child: Child,
+    pub addr: std::net::SocketAddr,
+}
+
+impl RealExporter {
+    /// the exporter binary configured to read the daemon's own observation socket
+    pub fn start(w: &World) -> Result<RealExporter, String> {
+        let bin = crate::exporter::exporter_binary();
+        if !bin.exists() {
+            return Err(format!("exporter binary {} not built", bin.display()));
+        }
+        let port = {
+            let l = std::net::TcpListener::bind("127.0.0.1:0").map_err(|e| e.to_string())?;
+            l.local_addr().map_err(|e| e.to_string())?.port()
+        };
+        let addr: std::net::SocketAddr = format!("127.0.0.1:{}", port).parse().unwrap();
+        let cfg = w.dir.join("exporter.toml");
+        std::fs::write(&cfg, format!("loglevel = \"error\"\n[[port]]\ninterface = \"lo\"\n\n[observability]\nobservation-path = \"{}\"\nmetrics-exporter-listen = \"{}\"\n", w.dir.join("obs.sock").display(), addr)).map_err(|e| e.to_string())?;
+        let child = Command::new(&bin).arg("-c").arg(&cfg).stdin(Stdio::null()).stdout(Stdio::null()).stderr(Stdio::null()).spawn().map_err(|e| e.to_string())?;
+        let mut e = RealExporter { child, addr };
+        let t0 = Instant::now();
+        loop {
+            if let Ok(Some(st)) = e.child.try_wait() {
+                return Err(format!("exporter exited at start-up: {:?}", st));
+            }
+            if let Ok(raw) = crate::exporter::http_get(&e.addr, Duration::from_millis(500)) {
+                if crate::exporter::parse_http(&raw).is_some() {
+                    return Ok(e);
+                }
+            }
+            if t0.elapsed() > Duration::from_secs(10) {
+                return Err("exporter did not start listening within 10 s".into());
+            }
+            std::thread::sleep(Duration::from_millis(10));
+        }
+    }
+}
+
+impl Drop for RealExporter {
+    fn drop(&mut self) {
+        let _ = self.child.kill();
+        let _ = self.child.wait();
+    }
+}
+
+/// One case: the parent changes what it announces (every content field and flag from generated values, always
+/// better than the daemon's own data set); after four announce intervals the daemon's observation socket must
+/// show exactly that hierarchy (parentDS, currentDS.stepsRemoved, timePropertiesDS), the configured defaultDS
+/// and the port states (Slave, Master); the exporter binary, reading the same socket, must serve exactly that
+/// state under the meaning of its metadata.
+pub fn case_c19(w: &mut World, exp: &RealExporter, t: &mut Tape) -> E2eOut {
+    use statime::config::LeapIndicator as L;
+    let mut out = CaseOut::new();
+    let mut ann = default_parent_ann();
+    if t.chance(3, 4) {
+        ann.gm_identity = [0x00, 0x1b, 0x19, 0xdd, t.below(256) as u8, t.below(256) as u8, 0, 1 + t.below(200) as u8];
+    }
+    ann.gm_priority1 = t.below(128) as u8; // better than the daemon's 128
+    ann.gm_class = *t.pick(&[6u8, 7, 13, 52, 127, 128, 187, 193, 248, 255]);
+    ann.gm_accuracy = *t.pick(&[0x17u8, 0x20, 0x21, 0x2f, 0x31, 0x80, 0xfd, 0xfe]);
+    ann.gm_variance = match t.below(3) {
+        0 => 0x4e5d,
+        1 => *t.pick(&[0u16, 1, 0x7fff, 0x8000, 0xffff]),
+        _ => t.below(0x10000) as u16,
+    };
+    ann.gm_priority2 = t.below(256) as u8;
+    ann.steps_removed = if t.chance(1, 4) { *t.pick(&[0u16, 1, 253, 254]) } else { t.below(200) as u16 };
+    ann.utc_offset = match t.below(3) {
+        0 => 37,
+        1 => *t.pick(&[0i16, -1, i16::MAX, i16::MIN]),
+        _ => t.range(-400, 400) as i16,
+    };
+    ann.time_source = *t.pick(&[0x10u8, 0x20, 0x30, 0x39, 0x40, 0x50, 0x60, 0x90, 0xa0, 0xf0, 0xfe]);
+    let flags1 = t.below(64) as u8;
+    w.parent_ann = ann;
+    w.parent_flags1 = flags1;
+    let d = Instant::now() + Duration::from_millis(4 * ANN_MS + 40);
+    w.run_until(d);
+    if !w.alive() {
+        out.fail("daemon exited", "");
+        return E2eOut { out, inconclusive: None };
+    }
+    let Some(st1) = w.observe() else {
+        out.fail("daemon: observation socket does not deliver a parsable state", "");
+        return E2eOut { out, inconclusive: None };
+    };
+    let raw = crate::exporter::http_get(&exp.addr, Duration::from_secs(5));
+    let Some(st2) = w.observe() else {
+        out.fail("daemon: observation socket does not deliver a parsable state", "");
+        return E2eOut { out, inconclusive: None };
+    };
+    let i = &st2.instance;
+    let states = (format!("{:?}", i.port_ds.first().map(|p| p.port_state)), format!("{:?}", i.port_ds.get(1).map(|p| p.port_state)));
+    if !(states.0.contains("Slave") && states.1.contains("Master")) {
+        return E2eOut { out, inconclusive: Some(format!("daemon not (Slave, Master): {:?}", states)) };
+    }
+    let render = json!({"announced": format!("{:?}", ann), "flags1": flags1});
+    let mut diffs: Vec<String> = vec![];
+    let p = &i.parent_ds;
+    let mut chk = |name: &str, got: String, want: String| {
+        if got != want {
+            diffs.push(format!("{}: observed {} announced {}", name, got, want));
+        }
+    };
+    chk("parentDS.parentPortIdentity", format!("{:02x?}/{}", p.parent_port_identity.clock_identity.0, p.parent_port_identity.port_number), format!("{:02x?}/{}", PARENT.clock, PARENT.port));
+    chk("parentDS.grandmasterIdentity", format!("{:02x?}", p.grandmaster_identity.0), format!("{:02x?}", ann.gm_identity));
+    chk("parentDS.grandmasterPriority1", p.grandmaster_priority_1.to_string(), ann.gm_priority1.to_string());
+    chk("parentDS.grandmasterPriority2", p.grandmaster_priority_2.to_string(), ann.gm_priority2.to_string());
+    chk("parentDS.gm clockClass", p.grandmaster_clock_quality.clock_class.to_string(), ann.gm_class.to_string());
+    chk("parentDS.gm clockAccuracy", p.grandmaster_clock_quality.clock_accuracy.to_primitive().to_string(), ann.gm_accuracy.to_string());
+    chk("parentDS.gm variance", p.grandmaster_clock_quality.offset_scaled_log_variance.to_string(), ann.gm_variance.to_string());
+    chk("currentDS.stepsRemoved", i.current_ds.steps_removed.to_string(), (ann.steps_removed + 1).to_string());
+    let tp = &i.time_properties_ds;
+    let want_leap = if flags1 & 2 != 0 { L::Leap59 } else if flags1 & 1 != 0 { L::Leap61 } else { L::NoLeap };
+    chk("timePropertiesDS.leap", format!("{:?}", tp.leap_indicator), format!("{:?}", want_leap));
+    chk("timePropertiesDS.currentUtcOffset", format!("{:?}", tp.current_utc_offset), format!("{:?}", if flags1 & 4 != 0 { Some(ann.utc_offset) } else { None }));
+    chk("timePropertiesDS.ptpTimescale", tp.ptp_timescale.to_string(), (flags1 & 8 != 0).to_string());
+    chk("timePropertiesDS.timeTraceable", tp.time_traceable.to_string(), (flags1 & 16 != 0).to_string());
+    chk("timePropertiesDS.frequencyTraceable", tp.frequency_traceable.to_string(), (flags1 & 32 != 0).to_string());
+    chk("timePropertiesDS.timeSource", tp.time_source.to_primitive().to_string(), ann.time_source.to_string());
+    chk("defaultDS.clockIdentity", format!("{:02x?}", i.default_ds.clock_identity.0), format!("{:02x?}", w.own_identity));
+    chk("defaultDS.numberPorts", i.default_ds.number_ports.to_string(), "2".to_string());
+    chk("defaultDS.priority1", i.default_ds.priority_1.to_string(), "128".to_string());
+    chk("pathTraceDS.enable", i.path_trace_ds.enable.to_string(), w.path_trace.to_string());
+    drop(chk);
+    if !diffs.is_empty() {
+        out.fail("daemon: observed data sets differ from what the parent announces / the configuration", format!("{} ; {}", diffs.join(" ; "), render));
+    }
+    // the exporter behind the real observation socket
+    let same = serde_json::to_value(&st1.instance).ok() == serde_json::to_value(&st2.instance).ok();
+    match raw {
+        Err(e) => out.fail("daemon: exporter reading the daemon's observation socket did not answer", e),
+        Ok(raw) if same => {
+            let mut o2 = CaseOut::new();
+            crate::c19::check_response_uptime(&raw, &st2, &mut o2, Some((st1.program.uptime_seconds, st2.program.uptime_seconds)));
+            if let Some(v) = o2.violation {
+                out.fail(format!("daemon+exporter: {}", v.sig), v.detail);
+            }
+        }
+        Ok(_) => out.label("daemon:state-changed-between-reads"),
+    }
+    out.render = render;
+    out.nontrivial = Some(hash_of(&format!("{:?}{}", ann, flags1)));
+    out.label("daemon:observed");
+    E2eOut { out, inconclusive: None }
+}
+
+// ---------------------------------------------------------------- C17 case (the real lock under concurrent load)
+
+fn now_tai_ns() -> u128 {
+    let d = std::time::SystemTime::now().duration_since(std::time::UNIX_EPOCH).unwrap_or_default();
+    d.as_nanos() + 37_000_000_000
+}
+
+/// One case: for 0.4-1.2 s both ports of the daemon are loaded at the same time with traffic that makes their
+/// tasks take the instance-state lock (port 1: Announces of the parent at a multiple of the nominal rate with
+/// changing contents, Sync/Follow_Up, Delay_Resp for the daemon's own requests, Announces of a worse master;
+/// port 2: Delay_Req from several requesters, Announces of a worse master, Pdelay_Req) while BMCA runs every
+/// 125 ms and the observation socket is polled. Afterwards the daemon must still be alive, announce on port 2,
+/// answer a fresh Delay_Req and the observation socket - a deadlock or a poisoned lock shows as silence.
+pub fn case_c17(w: &mut World, t: &mut Tape) -> E2eOut {
+    let mut out = CaseOut::new();
+    if !w.steady() {
+        let d = Instant::now() + Duration::from_millis(1500);
+        w.run_until(d);
+        if !w.steady() {
+            return E2eOut { out, inconclusive: Some(format!("daemon not in (Slave, Master) before the case: {:?}", w.port_states())) };
+        }
+    }
+    let flood_ms = t.urange(400, 1200);
+    // per-iteration weights of the traffic kinds
+    let wts: Vec<u64> = (0..8).map(|_| t.below(6)).collect();
+    let burst = t.urange(1, 6) as usize;
+    let pause_us = *t.pick(&[0u64, 50, 200, 1000]);
+    let me1 = PortId { clock: w.own_identity, port: 1 };
+    let mut sync_seq = (t.below(0x10000)) as u16;
+    let mut req_seq = 0u16;
+    let mut sent = [0u64; 8];
+    let t0 = Instant::now();
+    let mut lcg = t.below(1 << 30) | 1;
+    let mut rnd = move || {
+        lcg = lcg.wrapping_mul(6364136223846793005).wrapping_add(1442695040888963407);
+        (lcg >> 33) as u64
+    };
+    let total_w: u64 = wts.iter().sum::<u64>().max(1);
+    let mut obs_polls = 0;
+    while t0.elapsed() < Duration::from_millis(flood_ms) {
+        for _ in 0..burst {
+            let mut r = rnd() % total_w;
+            let mut kind = 0;
+            for (k, x) in wts.iter().enumerate() {
+                if r < *x {
+                    kind = k;
+                    break;
+                }
+                r -= *x;
+            }
+            sent[kind] += 1;
+            match kind {
+                0 => {
+                    // parent Announce with slightly changing contents (S1 updates under the exclusive lock)
+                    w.parent_ann.gm_priority2 = (rnd() % 200) as u8;
+                    w.parent_ann.utc_offset = (rnd() % 100) as i16;
+                    w.parent_flags1 = 0x04 | ((rnd() % 2) as u8) << 3;
+                    // every other one carries a propagating TLV: port 2 then forwards while port 1 updates
+                    let tl = if rnd() % 2 == 0 { vec![RTlv { typ: 0x4001, value: vec![(rnd() % 256) as u8; 8] }] } else { vec![] };
+                    w.parent_announce(tl);
+                }
+                1 => {
+                    sync_seq = sync_seq.wrapping_add(1);
+                    let mut m = RMsg::new(T_SYNC, PARENT, sync_seq, RBody::Sync { origin: RTs::default() });
+                    m.header.set_flag(F_TWO_STEP, true);
+                    m.header.log_interval = ANN_LOG;
+                    w.send_a(&m);
+                    let mut f = RMsg::new(T_FOLLOW_UP, PARENT, sync_seq, RBody::FollowUp { precise_origin: RTs::from_ns(now_tai_ns()) });
+                    f.header.log_interval = ANN_LOG;
+                    w.send_a(&f);
+                }
+                2 => {
+                    // answer the daemon's latest Delay_Req (if any)
+                    if let Some(seq) = w.seen_a_delay_req.last().copied() {
+                        let m = RMsg::new(T_DELAY_RESP, PARENT, seq, RBody::DelayResp { receive: RTs::from_ns(now_tai_ns()), requesting: me1 });
+                        w.send_a(&m);
+                    }
+                }
+                3 => {
+                    w.other_announce(vec![]);
+                }
+                4 | 5 => {
+                    // Delay_Req from a requester on port 2's segment
+                    req_seq = req_seq.wrapping_add(1);
+                    let src = PortId { clock: [0x00, 0x1b, 0x19, 0xee, 0, 0, 0, 1 + (rnd() % 4) as u8], port: 1 };
+                    let m = RMsg::new(T_DELAY_REQ, src, req_seq, RBody::DelayReq { origin: RTs::default() });
+                    w.send_b(&m);
+                }
+                6 => {
+                    // Announce of a worse master on port 2's segment (registered by port 2's BMCA state)
+                    let src = PortId { clock: [0x00, 0x1b, 0x19, 0xef, 0, 0, 0, 9], port: 1 };
+                    let mut ann = simple_announce(src.clock, 200, 248, 0);
+                    ann.gm_identity = src.clock;
+                    req_seq = req_seq.wrapping_add(1);
+                    let mut m = announce_from(src, req_seq, ann, 0, 0);
+                    m.header.log_interval = ANN_LOG;
+                    w.send_b(&m);
+                }
+                _ => {
+                    let src = PortId { clock: [0x00, 0x1b, 0x19, 0xee, 0, 0, 0, 0x33], port: 1 };
+                    req_seq = req_seq.wrapping_add(1);
+                    let m = RMsg::new(T_PDELAY_REQ, src, req_seq, RBody::PdelayReq { origin: RTs::default(), reserved: [0; 10] });
+                    w.send_b(&m);
+                }
+            }
+        }
+        w.drain();
+        if rnd() % 256 == 0 {
+            let _ = w.observe();
+            obs_polls += 1;
+        }
+        if pause_us > 0 {
+            std::thread::sleep(Duration::from_micros(pause_us));
+        }
+    }
+    // back to the plain parent; quiet period
+    w.parent_ann = default_parent_ann();
+    w.parent_flags1 = 0;
+    w.next_parent = Instant::now();
+    w.seen_b.clear();
+    w.seen_b_delay_resp.clear();
+    let d = Instant::now() + Duration::from_millis(1500);
+    w.run_until(d);
+    let rendered = json!({"flood_ms": flood_ms, "weights(parent announce, sync+fup, delay_resp, other announce, delay_req x2, announce on port 2, pdelay_req)": wts, "burst": burst, "pause_us": pause_us, "sent": sent, "observation_polls": obs_polls});
+    if !w.alive() {
+        let log = std::fs::read_to_string(w.dir.join("daemon.log")).unwrap_or_default();
+        out.fail("daemon exited under concurrent load on both ports", format!("{} ; {}", log.lines().rev().take(4).collect::<Vec<_>>().join(" | "), rendered));
+        return E2eOut { out, inconclusive: None };
+    }
+    let announces_after = w.seen_b.iter().filter(|a| a.msg.header.source.clock == w.own_identity).count();
+    // a fresh Delay_Req must be answered by the master port
+    let mut answered = false;
+    let probe_src = PortId { clock: [0x00, 0x1b, 0x19, 0xee, 0, 0, 0, 0x77], port: 1 };
+    for k in 0..4u16 {
+        let seq = 0x7700 + k;
+        let m = RMsg::new(T_DELAY_REQ, probe_src, seq, RBody::DelayReq { origin: RTs::default() });
+        w.send_b(&m);
+        let d = Instant::now() + Duration::from_millis(250);
+        w.run_until(d);
+        if w.seen_b_delay_resp.contains(&seq) {
+            answered = true;
+            break;
+        }
+    }
+    let obs = w.observe();
+    if announces_after < 2 {
+        out.fail("daemon: master port silent after concurrent load on both ports (deadlock?)", format!("{} Announces in 1.5 s (nominal 12) ; {}", announces_after, rendered));
+    } else if obs.is_none() {
+        out.fail("daemon: observation socket silent after concurrent load", rendered.to_string());
+    } else if !w.steady() {
+        return E2eOut { out, inconclusive: Some(format!("daemon left (Slave, Master): {:?}", w.port_states())) };
+    } else if !answered {
+        out.fail("daemon: master port does not answer Delay_Req after concurrent load on both ports", rendered.to_string());
+    }
+    out.render = rendered;
+    if sent.iter().filter(|x| **x > 0).count() >= 3 {
+        out.nontrivial = Some(hash_of(&format!("{:?}{}{}{}", wts, flood_ms, burst, pause_us)));
+    }
+    out.label("daemon:load");
+    E2eOut { out, inconclusive: None }
+}
+
+// ---------------------------------------------------------------- C12 case (the daemon as the host that obeys the timer actions)
+
+/// One case, in real time with explicit bounds:
+///  1. steady state (port 1 slave, port 2 master) for a generated window: port 2 emits Announce and Sync, port 1
+///     emits Delay_Req, each at no less than 60 % and no more than 150 % (+2) of its configured rate;
+///  2. the parent falls silent for a generated time; if that is longer than receipt timeout + one interval +
+///     one BMCA period + 0.5 s, port 1 must have become master and announce on its segment;
+///  3. the parent returns: within two announce intervals + one BMCA period + 0.6 s port 1 is slave again and
+///     within a further two delay intervals + 0.3 s it sends Delay_Req again.
+pub fn case_c12(w: &mut World, t: &mut Tape) -> E2eOut {
+    let mut out = CaseOut::new();
+    if !w.steady() {
+        let d = Instant::now() + Duration::from_millis(1500);
+        w.run_until(d);
+        if !w.steady() {
+            return E2eOut { out, inconclusive: Some(format!("daemon not in (Slave, Master) before the case: {:?}", w.port_states())) };
+        }
+    }
+    let window_ms = t.urange(800, 2000);
+    let silence_ms = if t.chance(1, 5) { t.urange(100, 300) } else { t.urange(1300, 2200) };
+    let rendered = json!({"steady_window_ms": window_ms, "parent_silence_ms": silence_ms});
+    out.render = rendered.clone();
+    // 1. cadence in the steady state
+    w.log.clear();
+    let t0 = Instant::now();
+    w.run_until(t0 + Duration::from_millis(window_ms));
+    let el = t0.elapsed().as_millis() as f64;
+    let count = |w: &World, port: char, ty: u8| w.log.iter().filter(|(p, k, _)| *p == port && *k == ty).count() as f64;
+    let rate_check = |name: &str, got: f64, nominal_ms: f64, out: &mut CaseOut| {
+        let nominal = el / nominal_ms;
+        if got < (0.6 * nominal - 1.0).floor() {
+            out.fail(format!("daemon: {} slower than 60 % of the configured rate", name), format!("{} in {} ms (nominal {:.1}) ; {}", got, el, nominal, rendered));
+        } else if got > 1.5 * nominal + 2.0 {
+            out.fail(format!("daemon: {} faster than 150 % of the configured rate", name), format!("{} in {} ms (nominal {:.1}) ; {}", got, el, nominal, rendered));
+        }
+    };
+    rate_check("Announce of the master port", count(w, 'b', T_ANNOUNCE), ANN_MS as f64, &mut out);
+    rate_check("Sync of the master port", count(w, 'b', T_SYNC), ANN_MS as f64, &mut out);
+    rate_check("Delay_Req of the slave port", count(w, 'a', T_DELAY_REQ), 250.0, &mut out);
+    if count(w, 'a', T_ANNOUNCE) + count(w, 'a', T_SYNC) > 0.0 {
+        out.fail("daemon: slave port emits master traffic", format!("{:?}", rendered));
+    }
+    if out.violation.is_some() || !w.alive() {
+        return E2eOut { out, inconclusive: None };
+    }
+    // 2. silence of the parent
+    w.log.clear();
+    let s0 = Instant::now();
+    w.next_parent = s0 + Duration::from_millis(silence_ms);
+    // the event loop would announce at next_parent; stop just before it
+    w.run_until(s0 + Duration::from_millis(silence_ms - 5));
+    // receipt timeout 3 intervals (+ up to one random interval), one BMCA period, slack
+    let bound_master = 3 * ANN_MS + ANN_MS + ANN_MS + 500;
+    if silence_ms >= bound_master {
+        let took_over = w.log.iter().any(|(p, k, _)| *p == 'a' && *k == T_ANNOUNCE);
+        if !took_over {
+            out.fail("daemon: port whose master fell silent did not become master within the bound", format!("no Announce on port 1's segment after {} ms of silence (bound {} ms) ; states {:?} ; {}", silence_ms, bound_master, w.port_states(), rendered));
+            return E2eOut { out, inconclusive: None };
+        }
+        out.label("daemon:took-over");
+        // once master it announces at the configured rate
+        let first = w.log.iter().filter(|(p, k, _)| *p == 'a' && *k == T_ANNOUNCE).map(|x| x.2).min().unwrap();
+        let span = s0 + Duration::from_millis(silence_ms - 5) - first;
+        let n = w.log.iter().filter(|(p, k, _)| *p == 'a' && *k == T_ANNOUNCE).count() as f64;
+        let nominal = span.as_millis() as f64 / ANN_MS as f64;
+        if n < (0.6 * nominal - 1.0).floor() {
+            out.fail("daemon: Announce of the port that took over slower than 60 % of the configured rate", format!("{} in {} ms ; {}", n, span.as_millis(), rendered));
+            return E2eOut { out, inconclusive: None };
+        }
+    }
+    // 3. the parent returns
+    let r0 = Instant::now();
+    w.next_parent = r0;
+    let bound_slave = 2 * ANN_MS + ANN_MS + 600;
+    let mut slave_at = None;
+    while r0.elapsed() < Duration::from_millis(bound_slave + 400) {
+        let d = Instant::now() + Duration::from_millis(50);
+        w.run_until(d);
+        if w.steady() {
+            slave_at = Some(r0.elapsed());
+            break;
+        }
+    }
+    match slave_at {
+        None => {
+            out.fail("daemon: port does not become slave of the returned master within the bound", format!("states {:?} after {} ms (bound {} ms) ; {}", w.port_states(), r0.elapsed().as_millis(), bound_slave, rendered));
+            return E2eOut { out, inconclusive: None };
+        }
+        Some(_) => {}
+    }
+    w.log.clear();
+    let d = Instant::now() + Duration::from_millis(2 * 250 + 300);
+    w.run_until(d);
+    if count(w, 'a', T_DELAY_REQ) < 1.0 {
+        out.fail("daemon: slave port sends no Delay_Req after becoming slave again", format!("{} ms ; {}", 2 * 250 + 300, rendered));
+    }
+    out.nontrivial = Some(hash_of(&format!("{}{}", window_ms, silence_ms)));
+    out.label("daemon:timers");
+    E2eOut { out, inconclusive: None }
+}
+
 // ---------------------------------------------------------------- worker / parent plumbing
 
 /// `vcheck E2E-WORKER <prop> <seed> <first> <count> <stride> [tape.json]`
@@ -502,6 +961,10 @@ pub fn worker_main(args: &[String]) -> i32 {
     let stride: u64 = args.get(4).and_then(|s| s.parse().ok()).unwrap_or(1);
     let tape_file = args.get(5).cloned();
     let path_trace = (first % 2) == 1;
+    if let Err(e) = World::setup_links() {
+        println!("{}", json!({"fatal": e}));
+        return 2;
+    }
     let mut w = match World::start(path_trace) {
         Ok(w) => w,
         Err(e) => {
@@ -514,6 +977,17 @@ pub fn worker_main(args: &[String]) -> i32 {
         let v: Value = serde_json::from_str(&s).expect("parse replay");
         v["tape"].as_array().expect("tape").iter().map(|x| x.as_u64().unwrap()).collect()
     });
+    let mut exporter = if prop == "C19" {
+        match RealExporter::start(&w) {
+            Ok(e) => Some(e),
+            Err(e) => {
+                println!("{}", json!({"fatal": e}));
+                return 2;
+            }
+        }
+    } else {
+        None
+    };
     for k in 0..count {
         let idx = first + k * stride;
         let mut tape = match &fixed {
@@ -522,11 +996,18 @@ pub fn worker_main(args: &[String]) -> i32 {
         };
         let r = match prop.as_str() {
             "C15" => case_c15(&mut w, &mut tape, idx as u32),
+            "C19" => case_c19(&mut w, exporter.as_ref().unwrap(), &mut tape),
+            "C17" => case_c17(&mut w, &mut tape),
+            "C12" => case_c12(&mut w, &mut tape),
             _ => {
                 println!("{}", json!({"fatal": format!("no end-to-end case for {}", prop)}));
                 return 2;
             }
         };
+        let mut r = r;
+        if let Some(o) = r.out.render.as_object_mut() {
+            o.insert("path_trace".into(), json!(path_trace));
+        }
         let line = json!({
             "index": idx,
             "tape": tape.recorded(),
@@ -537,9 +1018,24 @@ pub fn worker_main(args: &[String]) -> i32 {
             "render": r.out.render,
         });
         println!("{}", line);
-        if !w.alive() {
-            println!("{}", json!({"fatal": "daemon exited"}));
-            return 2;
+        if r.out.violation.is_some() || r.inconclusive.is_some() || !w.alive() {
+            // a wedged or dead daemon must not spoil the following cases: start a fresh one
+            drop(exporter.take());
+            drop(w);
+            w = match World::start(path_trace) {
+                Ok(w) => w,
+                Err(e) => {
+                    println!("{}", json!({"fatal": format!("restart: {}", e)}));
+                    return 2;
+                }
+            };
+            if prop == "C19" {
+                exporter = RealExporter::start(&w).ok();
+                if exporter.is_none() {
+                    println!("{}", json!({"fatal": "exporter restart failed"}));
+                    return 2;
+                }
+            }
         }
     }
     0
@@ -583,6 +1079,7 @@ pub fn run_part(ctx: &Ctx, rep: &mut Report, n: u64, workers: u64) -> PartSummar
     let mut inconclusive = 0u64;
     let mut fatal: Vec<String> = vec![];
     let mut sample_inconclusive: Option<String> = None;
+    let mut unconfirmed: Vec<String> = vec![];
     for mut c in children {
         let so = c.stdout.take().unwrap();
         for line in BufReader::new(so).lines().map_while(Result::ok) {
@@ -599,7 +1096,14 @@ pub fn run_part(ctx: &Ctx, rep: &mut Report, n: u64, workers: u64) -> PartSummar
             }
             let mut out = CaseOut::new();
             if let Some(viol) = v["violation"].as_object() {
-                out.fail(viol["sig"].as_str().unwrap_or("").to_string(), viol["detail"].as_str().unwrap_or("").to_string());
+                let sig = viol["sig"].as_str().unwrap_or("").to_string();
+                let known_sig = rep.violations.iter().any(|(x, _, _)| x.sig == sig);
+                // real time: a violation only counts if the same case fails again in a fresh daemon (3 more runs)
+                if known_sig || confirm(ctx, &v) {
+                    out.fail(sig, viol["detail"].as_str().unwrap_or("").to_string());
+                } else {
+                    unconfirmed.push(format!("{} (case {})", sig, v["index"]));
+                }
             }
             out.nontrivial = v["nontrivial"].as_u64();
             if let Some(ls) = v["labels"].as_array() {
@@ -624,9 +1128,24 @@ pub fn run_part(ctx: &Ctx, rep: &mut Report, n: u64, workers: u64) -> PartSummar
         }
         let _ = c.wait();
     }
-    rep.parts.push(json!({"part": "daemon", "cases": cases, "inconclusive": inconclusive, "inconclusive_sample": sample_inconclusive, "workers": workers, "worker_errors": fatal,
+    rep.parts.push(json!({"part": "daemon", "cases": cases, "inconclusive": inconclusive, "inconclusive_sample": sample_inconclusive, "failures_not_reproduced_in_3_reruns(not counted)": unconfirmed, "workers": workers, "worker_errors": fatal,
         "wall_s": t0.elapsed().as_secs_f64(), "what": "the real statime daemon (built from /repo) as a two-port boundary clock in a private network namespace over veth pairs, PTP over Ethernet, announce interval 125 ms, virtual system clock; real time"}));
     PartSummary { cases, inconclusive, skipped: None }
+}
+
+/// re-run one reported case (its tape) three times in a fresh daemon; true if it fails again at least once
+fn confirm(ctx: &Ctx, line: &Value) -> bool {
+    let dir = std::env::temp_dir().join(format!("vcheck-e2e-confirm-{}-{}", std::process::id(), line["index"].as_u64().unwrap_or(0)));
+    let _ = std::fs::create_dir_all(&dir);
+    let f = dir.join("case.json");
+    let _ = std::fs::write(&f, json!({"tape": line["tape"], "case": line["render"]}).to_string());
+    let exe = std::env::current_exe().expect("current exe");
+    let pt = line["render"]["path_trace"].as_bool().unwrap_or(line["index"].as_u64().unwrap_or(0) % 2 == 1);
+    let first = if pt { "1" } else { "0" };
+    let o = Command::new("unshare").arg("-n").arg(&exe).args(["E2E-WORKER", &ctx.prop, &ctx.seed.to_string(), first, "3", "2", f.to_str().unwrap()]).stdin(Stdio::null()).stderr(Stdio::null()).output();
+    let _ = std::fs::remove_dir_all(&dir);
+    let Ok(o) = o else { return true };
+    String::from_utf8_lossy(&o.stdout).lines().any(|l| serde_json::from_str::<Value>(l).map(|v| v["violation"].is_object()).unwrap_or(false))
 }
 
 /// replay of a saved end-to-end case: the same tape is run `tries` times (the phase relative to the daemon's own
